@@ -50,6 +50,11 @@ func (n jnode) build() any {
 		return (*stackage.Condition)(nil)
 	case "tnil-int":
 		return (*int)(nil)
+	case "tnil-pp": // typed nils more than one pointer level deep
+		return (**int)(nil)
+	case "tnil-ppp":
+		var mid **string
+		return &mid
 	case "tnil-op":
 		return (*ptrOp)(nil)
 	case "tnil-cop": // a nil pointer to the library's own operator type
@@ -323,7 +328,7 @@ func c16Inputs(c *Ctx) []jnode {
 	s := func(x string) jnode { return jnode{T: "str", S: x} }
 	l := func(k ...jnode) jnode { return jnode{T: "list", Kids: k} }
 	labels := []jnode{s("AND"), s("or"), s("Not"), s("LIST"), s("basic"), s("CONDITION"), s("condition")}
-	atoms := []jnode{s("junk"), s(""), {T: "int"}, {T: "nil"}, {T: "tnil-stack"}, {T: "tnil-cond"}, {T: "tnil-int"}, {T: "op"}, {T: "op0"}, {T: "uop"}, {T: "uop-empty"},
+	atoms := []jnode{s("junk"), s(""), {T: "int"}, {T: "nil"}, {T: "tnil-stack"}, {T: "tnil-cond"}, {T: "tnil-int"}, {T: "tnil-pp"}, {T: "tnil-ppp"}, {T: "op"}, {T: "op0"}, {T: "uop"}, {T: "uop-empty"},
 		{T: "stack"}, {T: "stack0"}, {T: "cond"}, {T: "cond0"}, {T: "float"}, {T: "bool"}}
 	// depth-1 nested lists: every label followed by 0..2 atoms, condition rows of length 1..6, and junk lists
 	var nested []jnode
@@ -344,7 +349,7 @@ func c16Inputs(c *Ctx) []jnode {
 	for _, lb := range []jnode{s("CONDITION"), s("condition")} {
 		for _, kw := range []jnode{s("kw"), {T: "int"}, {T: "nil"}, s("")} {
 			for _, op := range opPos {
-				for _, ex := range []jnode{s("v"), {T: "nil"}, l(s("OR"), s("a")), l(s("CONDITION"), s("k"), jnode{T: "op"}, s("v")), l(), {T: "stack0"}, s("")} {
+				for _, ex := range []jnode{s("v"), {T: "nil"}, l(s("OR"), s("a")), l(s("CONDITION"), s("k"), jnode{T: "op"}, s("v")), l(), {T: "stack0"}, s(""), {T: "tnil-pp"}, {T: "tnil-ppp"}} {
 					nested = append(nested, l(lb, kw, op, ex))
 				}
 			}
